@@ -469,7 +469,7 @@ class PDDLWriter:
             pddl_types = [
                 self._get_mangled_name(t)
                 for t in self.problem.user_types
-                if cast(_UserType, t).name != "object"
+                if self._get_mangled_name(t) != "object"
             ]
             out.write(
                 f" (:types {' '.join(pddl_types)})\n" if len(pddl_types) > 0 else ""
@@ -938,8 +938,12 @@ class PDDLWriter:
             assert item.is_user_type()
             original_name = cast(_UserType, item).name
             tmp_name = _get_pddl_name(item, self.pddl_keywords)
-            # If the problem is hierarchical and the name is object, we want to change it
-            if self.problem_kind.has_hierarchical_typing() and tmp_name == "object":
+            # "object" is the predefined root of every PDDL type: a user type with that name
+            # must be renamed if the problem is hierarchical or has any other type
+            if tmp_name == "object" and (
+                self.problem_kind.has_hierarchical_typing()
+                or len(self.problem.user_types) > 1
+            ):
                 tmp_name = f"{tmp_name}_"
         else:
             original_name = item.name
